@@ -9,12 +9,15 @@ import (
 	"bufio"
 	"bytes"
 	"encoding/json"
+	"errors"
 	"fmt"
 	"io"
+	"io/fs"
 	"os"
 	"os/exec"
 	"path/filepath"
 	"regexp"
+	"runtime"
 	"runtime/debug"
 	"sort"
 	"strings"
@@ -42,6 +45,9 @@ type c20Case struct {
 type c20Outcome struct {
 	Status  int    `json:"status"`
 	Panic   string `json:"panic,omitempty"`
+	Kind    string `json:"kind,omitempty"`    // of the panic: from the VALUE (runtime.Error or not), see panicClass
+	Msg     string `json:"msg,omitempty"`     // class of the panic message (no input text, no numbers)
+	Details string `json:"details,omitempty"` // do-approve: content of the log file named in "details in FILE"
 	Where   string `json:"where,omitempty"` // first frame of the module below the panic
 	Stack   string `json:"stack,omitempty"`
 	Stdout  string `json:"stdout,omitempty"`
@@ -95,6 +101,85 @@ func whereOf(stack string) string {
 	return "?"
 }
 
+var digitsRe = regexp.MustCompile(`[0-9]+`)
+
+// msgHead: the fixed head of a message: cut at the first colon or quote, numbers blanked, at most five words.
+func msgHead(m string) string {
+	for _, sep := range []string{"\n", ": ", " '", " \"", "`", " ["} {
+		if i := strings.Index(m, sep); i >= 0 {
+			m = m[:i]
+		}
+	}
+	m = strings.TrimSuffix(m, ":")
+	w := strings.Fields(digitsRe.ReplaceAllString(m, "#"))
+	if len(w) > 5 {
+		w = w[:5]
+	}
+	return strings.Join(w, " ")
+}
+
+func runtimeKind(msg string) string {
+	switch {
+	case strings.Contains(msg, "index out of range"):
+		return "index"
+	case strings.Contains(msg, "slice bounds out of range"):
+		return "slice"
+	case strings.Contains(msg, "nil pointer dereference"):
+		return "nil"
+	case strings.Contains(msg, "interface conversion"):
+		return "typeassert"
+	case strings.Contains(msg, "assignment to entry in nil map"):
+		return "nilmap"
+	case strings.Contains(msg, "divide by zero"):
+		return "divide"
+	}
+	return "runtime-other"
+}
+
+// panicClass: kind from the panic VALUE (a runtime.Error is a fault of the Go runtime, anything else was
+// raised by a panic statement of the program), msg = fixed part of the message.
+func panicClass(e any) (kind, msg string) {
+	if re, ok := e.(runtime.Error); ok {
+		m := re.Error()
+		if i := strings.Index(m, " ["); i >= 0 { // index values
+			m = m[:i]
+		}
+		if i := strings.Index(m, ": interface {} is"); i >= 0 {
+			m = m[:i]
+		}
+		return runtimeKind(re.Error()), strings.TrimSpace(digitsRe.ReplaceAllString(m, "#"))
+	}
+	if err, ok := e.(error); ok {
+		var pe *fs.PathError
+		if errors.As(err, &pe) {
+			return "explicit", pe.Op + ": " + pe.Err.Error()
+		}
+		return "explicit", msgHead(err.Error())
+	}
+	return "explicit", msgHead(fmt.Sprint(e))
+}
+
+// panicClassText: the same from the text a dead process left on stderr ("panic: ...", "fatal error: ...").
+func panicClassText(line string) (kind, msg string) {
+	line = strings.TrimPrefix(strings.TrimSpace(line), "panic: ")
+	line = strings.TrimSuffix(line, " [recovered]")
+	if strings.HasPrefix(line, "runtime error:") || strings.HasPrefix(line, "assignment to entry in nil map") || strings.HasPrefix(line, "fatal error:") {
+		m := line
+		if i := strings.Index(m, " ["); i >= 0 {
+			m = m[:i]
+		}
+		return runtimeKind(line), strings.TrimSpace(digitsRe.ReplaceAllString(m, "#"))
+	}
+	if _, rest, ok := strings.Cut(line, " "); ok && (strings.HasPrefix(line, "open ") || strings.HasPrefix(line, "read ")) {
+		if i := strings.LastIndex(rest, ": "); i >= 0 {
+			return "explicit", strings.Fields(line)[0] + ": " + rest[i+2:]
+		}
+	}
+	return "explicit", msgHead(line)
+}
+
+var detailsRe = regexp.MustCompile(`details in (\S+)`)
+
 func prepareDir(dir string, c *c20Case) {
 	os.RemoveAll(dir)
 	os.MkdirAll(dir, 0755)
@@ -121,7 +206,7 @@ func runInProcess(dir string, c *c20Case) c20Outcome {
 	os.Unsetenv("SIMULATE_ROUTER")
 	os.Unsetenv("TEST_TIME")
 	for k, v := range c.Env {
-		os.Setenv(k, v)
+		os.Setenv(k, strings.NewReplacer("$DIR", dir, "$REPO", os.Getenv("C20_REPO")).Replace(v))
 	}
 	var mainFunc func() int
 	switch c.Prog {
@@ -148,6 +233,7 @@ func runInProcess(dir string, c *c20Case) c20Outcome {
 		defer func() {
 			if e := recover(); e != nil {
 				out.Panic = fmt.Sprint(e)
+				out.Kind, out.Msg = panicClass(e)
 				out.Stack = string(debug.Stack())
 				out.Where = whereOf(out.Stack)
 				out.Status = 2
@@ -165,6 +251,11 @@ func runInProcess(dir string, c *c20Case) c20Outcome {
 	out.Stdout = trunc(bo.String(), 600)
 	out.Stderr = trunc(be.String(), 1200)
 	out.Stack = trunc(out.Stack, 3000)
+	if m := detailsRe.FindStringSubmatch(out.Stderr); m != nil {
+		if data, err := os.ReadFile(m[1]); err == nil {
+			out.Details = trunc(string(data), 3000)
+		}
+	}
 	for k := range c.Env {
 		os.Unsetenv(k)
 	}
@@ -255,7 +346,14 @@ func (w *c20Worker) run(c *c20Case, timeout time.Duration) (c20Outcome, *c20Work
 		if a.err != nil || len(a.line) == 0 {
 			w.cmd.Process.Kill()
 			w.cmd.Wait()
-			return c20Outcome{Status: 2, Died: trunc(w.err.String(), 3000), Where: whereOf(w.err.String())}, startWorker()
+			o := c20Outcome{Status: 2, Died: trunc(w.err.String(), 3000), Where: whereOf(w.err.String())}
+			for _, l := range strings.Split(w.err.String(), "\n") {
+				if strings.HasPrefix(l, "panic: ") || strings.HasPrefix(l, "fatal error: ") {
+					o.Kind, o.Msg = panicClassText(l)
+					break
+				}
+			}
+			return o, startWorker()
 		}
 		var o c20Outcome
 		if err := json.Unmarshal(a.line, &o); err != nil {
@@ -331,6 +429,7 @@ func runBinary(bin string, c *c20Case, timeout time.Duration) c20Outcome {
 	if strings.Contains(be.String(), "goroutine ") && strings.Contains(be.String(), "panic") {
 		o.Panic = strings.SplitN(be.String(), "\n", 2)[0]
 		o.Where = whereOf(be.String())
+		o.Kind, o.Msg = panicClassText(o.Panic)
 	}
 	return o
 }
